@@ -22,6 +22,7 @@ package ollamarunner
 
 import (
 	"fmt"
+	"math"
 	"strconv"
 	"strings"
 	"time"
@@ -307,23 +308,38 @@ func (srv *simServer) checkRows(batch input.Batch, toks []float32, vis [][][]vis
 				continue
 			}
 			ref := srv.rec.seq(slot)
-			opclass := ""
+			// Signature: cache family + symptom + the operation class that explains it. Symptoms
+			// that keep the number of entries (wrong-position, wrong-token) mean that data and
+			// metadata of cells disagree, which only cell moves (defrag) can cause; a changed
+			// number of entries means that the set of cells of the sequence is wrong.
+			family := "causal"
+			if windows[l] != math.MaxInt32 {
+				family = "swa"
+			}
+			sig := ""
 			switch {
 			case ref.undefined:
 				// a Remove failed on this sequence (shift impossible) and the sequence was
 				// used again without having been cleared
-				opclass = "overflow>fallback"
-				symptom = "not-cleared"
-			case len(ref.ops) > 0:
-				opclass = srv.layerKind(l) + ":" + ref.ops[len(ref.ops)-1]
+				sig = "overflow>fallback:not-cleared"
+			case symptom == "wrong-position" || symptom == "wrong-token":
+				if srv.f.defragRuns > 0 {
+					sig = family + ":" + symptom + ":after-defrag"
+				} else {
+					sig = family + ":" + symptom + ":no-defrag"
+				}
+			case ref.has("shift"):
+				sig = family + ":" + symptom + ":after-shift"
+			case ref.has("fork") || ref.has("trim"):
+				sig = family + ":" + symptom + ":after-resume"
 			default:
-				opclass = srv.layerKind(l) + ":plain"
+				sig = family + ":" + symptom + ":plain"
 			}
 			var sb strings.Builder
 			for _, e := range got {
 				fmt.Fprintf(&sb, "%d@%d ", e.tok, e.pos)
 			}
-			srv.w.violate("C07", "kv-history", "kv-history:"+opclass+":"+symptom,
+			srv.w.violate("C07", "kv-history", "kv-history:"+sig,
 				"%s: slot %d layer %d (%s): batch row %d (token %d at position %d) %s\n  visible through the mask: %s\n  slot record + pending: [%s]\n  operations on this cache sequence since it was last cleared: %v (undefined after failed Remove: %v)\n  request: %v",
 				srv.name, slot, l, srv.layerKind(l), i, int32(toks[i]), p, detail, sb.String(), tokensString(info.want), ref.ops, ref.undefined, info.req)
 			return
@@ -414,7 +430,7 @@ func (w *runWorld) checkStream(srv *simServer, r *reqState) {
 	completed := r.final != nil && !r.cancelled
 	valid := utf8.ValidString(full)
 	shape := func() string {
-		return fmt.Sprintf("%s\n  generated pieces: %s\n  generated text T=%q (valid UTF-8: %v, EOS sampled: %v)\n  received pieces R=%q\n  final: %+v cancelled=%v", r, w.genPieces(r), full, valid, eos, r.pieces, r.final, r.cancelled)
+		return fmt.Sprintf("%s\n  generated pieces: %s\n  generated text T=%s (valid UTF-8: %v, EOS sampled: %v)\n  received pieces R=%s\n  final: %+v cancelled=%v", r, w.genPieces(r), clip(fmt.Sprintf("%q", full)), valid, eos, clip(fmt.Sprintf("%q", r.pieces)), r.final, r.cancelled)
 	}
 	n := len(tk)
 	if n > 0 {
@@ -439,7 +455,7 @@ func (w *runWorld) checkStream(srv *simServer, r *reqState) {
 		if !valid {
 			detail = "non-prefix:invalid-utf8-in-generated-text"
 		}
-		w.violate("C14", "stream", "stream:P1:"+detail, "the streamed text %q is not a prefix of the generated text\n  %s", out, shape())
+		w.violate("C14", "stream", "stream:P1:"+detail, "the streamed text %s is not a prefix of the generated text\n  %s", clip(fmt.Sprintf("%q", out)), shape())
 		return
 	}
 
@@ -474,20 +490,21 @@ func (w *runWorld) checkStream(srv *simServer, r *reqState) {
 		if completed {
 			// P2 (iii): the output ends immediately before a stop string
 			okBefore := false
+			tjValid := utf8.ValidString(tj)
 			for _, st := range r.stops {
-				if strings.HasPrefix(tj, out+st) {
-					okBefore = true
-				}
-			}
-			if !okBefore && !utf8.ValidString(tj) {
-				// an invalid fragment directly before the stop string cannot be sent
-				rest := tj[len(out):]
-				for k := 1; k <= 3 && k < len(rest); k++ {
-					if utf8.ValidString(rest[:k]) {
-						continue
+				for from := 0; from <= len(tj); {
+					i := strings.Index(tj[from:], st)
+					if i < 0 {
+						break
 					}
-					for _, st := range r.stops {
-						if strings.HasPrefix(rest[k:], st) {
+					i += from
+					from = i + 1
+					if len(out) == i {
+						okBefore = true
+					} else if len(out) < i && !tjValid {
+						// invalid generated text: what follows the first byte that is not UTF-8
+						// cannot be sent (same latitude as P3's "invalid trailing fragment")
+						if rn, sz := utf8.DecodeRuneInString(tj[len(out):]); rn == utf8.RuneError && sz <= 1 {
 							okBefore = true
 						}
 					}
@@ -616,6 +633,13 @@ func (w *runWorld) checkStream(srv *simServer, r *reqState) {
 	}
 }
 
+func clip(s string) string {
+	if len(s) > 360 {
+		return s[:240] + " ... " + s[len(s)-100:]
+	}
+	return s
+}
+
 func (w *runWorld) genPieces(r *reqState) string {
 	var sb strings.Builder
 	for i, t := range r.gen {
@@ -627,8 +651,8 @@ func (w *runWorld) genPieces(r *reqState) string {
 		} else {
 			fmt.Fprintf(&sb, "%d:%q", t, w.v.pieces[t])
 		}
-		if i > 80 {
-			sb.WriteString(" ...")
+		if i > 40 {
+			fmt.Fprintf(&sb, " ... (%d tokens)", len(r.gen))
 			break
 		}
 	}
